@@ -476,6 +476,9 @@ private:
         _allocated_bytes = total_allocated_size_in_bytes(dimensions);
         if (_allocated_bytes == 0)
         {
+            // a degenerate image (w x 0 or 0 x h) owns no storage but still has the requested dimensions,
+            // exactly like recreate(dims) of an empty image: a view over the null _memory (no pixel is addressable)
+            create_view(dimensions, std::false_type());
             return;
         }
 
@@ -497,6 +500,8 @@ private:
         _allocated_bytes = total_allocated_size_in_bytes( dimensions );
         if (_allocated_bytes == 0)
         {
+            // see the interleaved overload: keep the requested dimensions (all planes are empty, plane_size == 0)
+            create_view(dimensions, std::true_type());
             return;
         }
 
